@@ -40,6 +40,7 @@ PROGS = {
     'plain': {'steps': [S(['cont', [1], {}], yields=1, fx=[(0, ['out', 'o', 1])]), S(['value', 5], sync=True)]},
     'waits': {'steps': [S(['wait', 'w', None], sync=True, fx=[(0, ['out', 'o', 2])]), S(['cont', [], {}], yields=1), S(['value', 6], sync=True)]},
     'fails': {'steps': [S(['cont', [], {}], sync=True), S(['raise', 'task-prog-fails'], yields=1)]},
+    'fails_key': {'steps': [S(['cont', [], {}], sync=True), S(['raise', 'key:task-prog-fails'], yields=1)]},  # fails with a KeyError of its own
     # records its outputs and result, then fails in the hook called after FINISHED was entered: ends EXCEPTED
     'unpicklable': {'steps': [S(['cont', [1], {}], yields=1, fx=[(0, ['out', 'o', 1])]), S(['value', 5], sync=True)], 'unpicklable': True},
     'latefail': {'steps': [S(['cont', [2], {}], yields=1, fx=[(0, ['out', 'o', 3])]), S(['value', 7], sync=True)], 'late_fail': True},
